@@ -38,6 +38,17 @@ int main ()
     printf ("int limits_has_signaling_NaN %d\n", (int) L::has_signaling_NaN);
     printf ("int limits_has_denorm %d\n", (int) (L::has_denorm == std::denorm_present));
     printf ("int limits_round_to_nearest %d\n", (int) (L::round_style == std::round_to_nearest));
+    // members outside the property's list of extremes, dumped so that they are at least stated (Props/C03.lean
+    // other_members, Props/C03Bounded.lean)
+    printf ("int limits_is_specialized %d\n", (int) L::is_specialized);
+    printf ("int limits_is_integer %d\n", (int) L::is_integer);
+    printf ("int limits_is_exact %d\n", (int) L::is_exact);
+    printf ("int limits_is_modulo %d\n", (int) L::is_modulo);
+    printf ("int limits_is_bounded %d\n", (int) L::is_bounded);
+    printf ("int limits_is_iec559 %d\n", (int) L::is_iec559);
+    printf ("int limits_traps %d\n", (int) L::traps);
+    printf ("int limits_tinyness_before %d\n", (int) L::tinyness_before);
+    printf ("int limits_has_denorm_loss %d\n", (int) L::has_denorm_loss);
     printf ("f32 macro_HALF_DENORM_MIN %x\n", fb ((float) HALF_DENORM_MIN));
     printf ("f32 macro_HALF_NRM_MIN %x\n", fb ((float) HALF_NRM_MIN));
     printf ("f32 macro_HALF_MIN %x\n", fb ((float) HALF_MIN));
